@@ -18,6 +18,8 @@ ALLOWED_AXIOMS = {"propext", "Classical.choice", "Quot.sound"}
 
 # property → streams run by the harness, translator items the theorems depend on, extra Lean modules
 PROPS = {
+    "C01": dict(streams=["c01"], items=["keycodes", "layoutkeys", "charclasses", "rankcmp", "okkhor"]),
+    "C02": dict(streams=["c01"], items=["keycodes", "layoutkeys", "charclasses", "rankcmp", "okkhor"]),
     "C03": dict(streams=["c03"], items=["keycodes", "charclasses", "okkhor"]),
     "C04": dict(streams=["c04"], items=["keycodes", "layoutkeys", "charclasses"]),
 }
